@@ -23,7 +23,7 @@ RULE = (
     "random category classes (dataclasses with int/float/bool/str/None/missing defaults, permuted and duplicated "
     "codes, non-dataclasses, zero fields): accepted exactly when the class is a dataclass with >=1 field whose "
     "values are numerically 0,1,2,... in declaration order, and then to_jax()/codes/categories reproduce the "
-    "declaration. Non-trivial: an accepted grid with n>=3, or a rejected one with >=2 simultaneous faults; "
+    "declaration; dataclass INSTANCES constructed with explicit values are judged on the values they carry. Non-trivial: an accepted grid with n>=3, or a rejected one with >=2 simultaneous faults; "
     "distinct by case digest."
 )
 ASSUMPTIONS = [
